@@ -1,6 +1,7 @@
 package checks
 
 import (
+	"encoding/json"
 	"fmt"
 	"math/rand"
 
@@ -31,8 +32,8 @@ func init() {
 		ID:    "C03",
 		Level: "exploration",
 		Rule: "cases = a path (hostile-string generators of C02 filtered to those that parse, plus random ASTs whose index/slice literals reach +-2^31, +-2^63) " +
-			"evaluated on 6 documents each: battery, random, path-directed, the suite's own document for suite paths, both number decodings, and a variant with " +
-			"non-JSON leaves; judged: no panic, (non-empty,nil) xor (nil, one of 3 runtime errors), FunctionFailed only if a user function returned an error, " +
+			"evaluated on 6 documents each: battery, random, path-directed, the suite's own document for suite paths, both number decodings, a variant with " +
+			"non-JSON leaves, and for json.Number documents a variant whose numbers are spelled as only UseNumber keeps them (1e400, -1e999, 1E2, integers beyond int64, -0); judged: no panic, (non-empty,nil) xor (nil, one of 3 runtime errors), FunctionFailed only if a user function returned an error, " +
 			"no pool poison in results; non-trivial = path has a filter, slice, recursive step or function; distinct = distinct (path, document)",
 		Assumptions: []string{"bounded time is observed as 'returned before the 10 s per-case watchdog (time spent inside one library call; confirmed twice alone in fresh processes, 45 s each)'", "user functions: recording wrappers around the standard set"},
 		Plan: func(tier string, seed int64) *harness.Plan {
@@ -53,7 +54,7 @@ func init() {
 					runC03(c, r, g, src)
 				},
 				Finish:   reportHooks,
-				Required: []string{"outcome:values", "outcome:jsonpath.ErrorMemberNotExist", "outcome:jsonpath.ErrorTypeUnmatched", "outcome:jsonpath.ErrorFunctionFailed", "src:ast-bigint", "doc:opaque"},
+				Required: []string{"outcome:values", "outcome:jsonpath.ErrorMemberNotExist", "outcome:jsonpath.ErrorTypeUnmatched", "outcome:jsonpath.ErrorFunctionFailed", "src:ast-bigint", "doc:opaque", "doc:odd-json-numbers"},
 			}
 		},
 	})
@@ -120,6 +121,14 @@ func runC03(c *harness.Ctx, r *rand.Rand, g *gen.Gen, src *strSource) {
 			v = lib.Decode(dj, (i+c.K)%2 == 0)
 		}()
 		variants := []interface{}{v}
+		if (i+c.K)%2 == 0 {
+			// UseNumber keeps whatever the document spelled: numbers outside the float64 range, capital exponents,
+			// integers beyond int64 (a float64 decoding would have rejected or normalised them)
+			if odd, n := oddNumbers(r, lib.Clone(v)); n > 0 {
+				variants = append(variants, odd)
+				c.Cover("doc:odd-json-numbers")
+			}
+		}
 		if i < 2 {
 			used := map[string]bool{}
 			variants = append(variants, gen.Opaquify(r, lib.Clone(v), 4, used))
@@ -161,4 +170,32 @@ func runC03(c *harness.Ctx, r *rand.Rand, g *gen.Gen, src *strSource) {
 			}
 		}
 	}
+}
+
+var oddNumberTexts = []string{"1e400", "-1e999", "-2E+309", "1E2", "12345678901234567890", "-12345678901234567890", "-0", "0.10", "1e-400", "9223372036854775808", "0E0"}
+
+// oddNumbers replaces about a third of the json.Number leaves of v (in place) by valid JSON number texts that do not fit
+// a float64 / int64 or are spelled unusually.
+func oddNumbers(r *rand.Rand, v interface{}) (interface{}, int) {
+	n := 0
+	var walk func(v interface{}) interface{}
+	walk = func(v interface{}) interface{} {
+		switch t := v.(type) {
+		case json.Number:
+			if r.Intn(3) == 0 {
+				n++
+				return json.Number(oddNumberTexts[r.Intn(len(oddNumberTexts))])
+			}
+		case []interface{}:
+			for i := range t {
+				t[i] = walk(t[i])
+			}
+		case map[string]interface{}:
+			for _, k := range sortedKeysOf(t) {
+				t[k] = walk(t[k])
+			}
+		}
+		return v
+	}
+	return walk(v), n
 }
